@@ -156,9 +156,10 @@ pub fn c18(tier: &str, seed: u64) -> Check {
     // a finite infinity value: entries ≤ infinity, infinity not the type's MAX
     spaces.push(c18_space_usize(2, &U03_9));
     spaces.push(c18_space_usize(3, &U03_9));
+    spaces.push(c18_space_usize(4, &U01I));
     if thorough {
-        spaces.push(c18_space_usize(4, &U01I));
         spaces.push(c18_space_isize(4, &IM10I));
+        spaces.push(c18_space_usize(4, &U03_9));
     }
     let report = super::report(
         "C18",
@@ -291,11 +292,10 @@ pub fn c19(tier: &str, seed: u64) -> Check {
     for n in 1..=5 {
         spaces.push(c19_space(n));
     }
+    spaces.push(c19_space(6));
+    spaces.push(c19_space(7));
     if thorough {
-        spaces.push(c19_space(6));
-        spaces.push(c19_space(7));
-    } else {
-        spaces.push(c19_space(6));
+        spaces.push(c19_space(8));
     }
     let report = super::report(
         "C19",
